@@ -10,6 +10,17 @@ P = {
    text="Every row of the three tables, as the C++ compiler evaluates params.hpp on this run, is proved prime of w-2 bits, =1 mod 2*maxdeg, distinct, with root of exact order 2*maxdeg, true n^-1 and Newton quotient (table_valid); corollaries for every degree 2^k<=maxdeg and pairwise coprimality. A changed cell breaks the closed theorem; the failing row/conjunct is then named by an independent numeric re-check.",
    note=TB + "Tie = translator harness/dump_params.cpp (prints the constexpr arrays) re-run every time; MathComp Euler_exp_totient (axiom-free)."),
 }
+P.update({
+ "C01": dict(live=True, cat="proof", technique="Coq proof (DIF NTT = DFT in bit-reversed order, orthogonality, negacyclic multiplicativity) closed over all table rows and degrees + differential correspondence with nfl::poly on 3 back ends",
+   text="For every row of the generated tables and every degree 2<=2^k<=maxdeg the executable list-level model of ntt_pow_phi / pointwise product / invntt_pow_invphi (tables built as core::initialize() does, lazy Harvey butterflies with machine-word wrap) is proved to return the schoolbook negacyclic product (transform_ok, conjunct 5); the model is run against the real library (serial, SSE, AVX2; poly with 1..3 moduli; operator* and shoup(a*b,compute_shoup(b)), and a +,-,* circuit) on boundary-directed inputs and every stored word compared, with an independent zarith schoolbook spec.",
+   note=TB + "Modelled not verified: the C++ loops (fused last two layers, SIMD unrolled loops) are tied by correspondence only; several moduli = independent per-modulus runs."),
+ "C02": dict(live=True, cat="proof", technique="Coq proof (inverse DFT via orthogonality of a principal root, bit-reversal involution) closed over all table rows and degrees + differential correspondence on 3 back ends",
+   text="inv(fwd x)=x, fwd(inv y)=y, canonical outputs and additivity are proved for the executable model for every row and every degree (degree 1 separately); correspondence runs fwd, inv, both round trips and linearity on unit vectors, all-(p-1), lazy-boundary patterns and random inputs for degrees 1..64 (quick) / ..1024 (thorough) on serial, SSE, AVX2, all stored words compared. Found and fixed: degree-2 outputs were not canonical.",
+   note=TB + "Same model as C01."),
+ "C03": dict(live=True, cat="proof", technique="Coq proof of every scalar functor with explicit machine-word wrap (Shoup / Barrett-Newton range lemmas) closed over the generated tables + differential correspondence on 4 builds and every SIMD lane",
+   text="addmod, submod, mulmod (division and 64-bit Barrett-Newton), compute_shoup on every word, mulmod_shoup, muladd (both), lazy muladd_shoup are proved exact for every row of the generated tables and all canonical operands (functors_exact); the SSE/AVX2 addmod kernel is proved lane-wise equal to the scalar functor. Correspondence: extracted model vs nfl::ops functors (serial, NFL_OPTIMIZED, SSE, AVX2), cases solved for the comparison boundaries (x+y in {p-1,p,p+1}, x*y = 0,1,p-1, Shoup remainder >= p, words >= p), each vector kernel in a rotating lane with all other lanes cross-checked.",
+   note=TB + "16-bit functors go through C++ integer promotion; the model wraps at limb width (equal under the proved preconditions). Vector kernels other than addmod: correspondence only."),
+})
 ALL = ["C%02d" % i for i in range(1, 20)]
 checks, na = [], []
 for pid in ALL:
